@@ -28,7 +28,7 @@ def standard_run(ck, P, replay_cases=None):
             if not batch:
                 continue
             impl = ck.run_impl(exe, batch, logger=getattr(P, "LOGGER", "stdout"),
-                               jobs=getattr(P, "JOBS", None))
+                               jobs=getattr(P, "JOBS", None), env_extra=getattr(P, "ENV", None))
             if hasattr(P, "model_case"):
                 # two-round protocol: oracle answers computed by the real code (e.g. Go's regexp on
                 # exactly the strings the model asks about) are passed to the model as inputs
